@@ -153,7 +153,7 @@ def server_thread(srv, cert, proxy, out):
 SSL_VERSIONS = {"absent": None, "TLS_CLIENT": ssl.PROTOCOL_TLS_CLIENT, "TLS": ssl.PROTOCOL_TLS, "TLSv1_2": ssl.PROTOCOL_TLSv1_2}
 
 
-def run_case(scheme, cert_reqs, check_hostname, trust, server_hostname, server_cert, route, ssl_version="absent", extras=None):
+def run_case(scheme, cert_reqs, check_hostname, trust, server_hostname, server_cert, route, ssl_version="absent", extras=None, via="connect"):
     lib.reset_globals()
     cli, srv = socket.socketpair()
     cli.close()
@@ -231,10 +231,18 @@ def run_case(scheme, cert_reqs, check_hostname, trust, server_hostname, server_c
     ws.settimeout(10)
     try:
         try:
-            ws.connect("%s://good.test/chat" % scheme, **opts)
+            if via == "app":
+                # the same options through WebSocketApp.run_forever(sslopt=..., http_proxy_*=..., host=...)
+                lib.websocket.setdefaulttimeout(10)
+                _app, exc = env.open_via("app", "%s://good.test/chat" % scheme, {}, dict(opts, sslopt=sslopt))
+            elif via == "create_connection":
+                ws = lib.websocket.create_connection("%s://good.test/chat" % scheme, timeout=10, sslopt=sslopt, **opts)
+            else:
+                ws.connect("%s://good.test/chat" % scheme, **opts)
         except Exception as e:  # noqa
             exc = e
     finally:
+        lib.websocket.setdefaulttimeout(None)
         netpatch.undo()
         os.environ.pop("WEBSOCKET_CLIENT_CA_BUNDLE", None)
         if old_env is not None:
@@ -250,6 +258,8 @@ def run_case(scheme, cert_reqs, check_hostname, trust, server_hostname, server_c
     th.join(15)
     label = "%s cert_reqs=%s check_hostname=%s trust=%s server_hostname=%s server_cert=%s route=%s ssl_version=%s extras=%s" % (
         scheme, cert_reqs if cert_reqs == "absent" else ssl.VerifyMode(cert_reqs).name, check_hostname, trust, server_hostname, server_cert, route, ssl_version, extras)
+    if via != "connect":
+        label += " [through %s]" % ("WebSocketApp.run_forever" if via == "app" else via)
     if th.is_alive():
         return ({"kind": "server-thread-stuck"}, "%s: server thread did not finish" % label)
     sig = {"kind": "tls", "trust": trust if trust.startswith("context") else "options"}
@@ -332,6 +342,8 @@ def run_task(desc):
             if route == "proxy" and desc.get("tier") == "quick" and k % 3:
                 continue
             run("wss", cr, chk, trust, sh, sc, route)
+            if route == "direct":
+                run("wss", cr, chk, trust, sh, sc, route, "absent", None, "app" if k % 2 else "create_connection")
         # the documented ssl_version option must not change what is verified
         if not trust.startswith("context"):
             for sv in ("TLS_CLIENT", "TLS", "TLSv1_2"):
